@@ -29,6 +29,7 @@ theorem code_is_documented_dispenser : code.Correct where
   mode := by first | rfl | decide
   incr := by first | rfl | decide
   init := by first | rfl | decide
+  reset := by first | rfl | decide
   stop := by intro i n; simp [code, currentCode, Generated.stopWhen] <;> omega
   addr := by
     intro b i s
@@ -93,6 +94,24 @@ theorem effective_steps_bounded (p : Params) (sched : List Actor) :
   have h := effective_le_measure code code_is_documented_dispenser p sched _ (inv_init code code_is_documented_dispenser p)
   rw [measure_init code code_is_documented_dispenser p] at h
   omega
+
+/-- **Every experiment of a process.**  The shared counter is 0 at the start of EVERY call of `cimba_run_experiment`, whatever an
+    earlier experiment left in it ... -/
+theorem every_run_starts_from_zero (prev : Nat) : startNext code prev = 0 := by
+  simp [startNext, code_is_documented_dispenser.reset, code_is_documented_dispenser.init]
+
+/-- ... hence when one process runs several experiments one after the other (any trial counts, sizes, worker counts and
+    schedules), each of them behaves exactly as if it were the only one: all theorems above apply to every call. -/
+theorem later_experiments_behave_as_the_first (exps : List (Params × List Actor)) :
+    runProcess code exps = exps.map (fun e => run code e.1 e.2) :=
+  runSeq_eq_map_run code code_is_documented_dispenser exps _
+
+/-- non-vacuity: a runner that relies on the static initialiser alone returns from its second experiment without having
+    called the trial function at all (n = 1, one worker, both times) -/
+theorem stale_counter_skips_trials :
+    let r := runProcess Code.noReset [(⟨1, 1, 8, 4096⟩, roundRobin 1 8), (⟨1, 1, 8, 8192⟩, roundRobin 1 8)]
+    r.map (·.main) = [.returned, .returned] ∧ r.map (·.finished) = [[0], []] ∧ r.map (·.calls) = [[(0, 4096)], []] := by
+  decide +kernel
 
 /-- The theorems are not vacuous: with the fetch split into a separate load and store the same model runs a trial twice. -/
 theorem split_fetch_runs_a_trial_twice :
